@@ -197,6 +197,7 @@ var transparentExt = map[string]bool{
 	"github.com/tokenized/pkg/wire.MsgTxn":              true,
 	"github.com/tokenized/pkg/wire.MsgGetHeaders":       true,
 	"github.com/tokenized/pkg/bitcoin.UTXO":             true,
+	"github.com/tokenized/pkg/wire.MerkleProof":         true,
 	"github.com/tokenized/pkg/merkle_proof.MerkleProof": false,
 	"github.com/tokenized/pkg/merchant_api.FeeQuote":    true,
 	"github.com/tokenized/pkg/merchant_api.Fee":         true,
